@@ -177,13 +177,21 @@ class RuleBuild(LibModel):
 
     # ---- while: arbitrary-iteration rule with the invariant Top0(current_node) == Top0(current0) ----
     def while_invariant(self, st):
-        c = st.locals['current_node']
+        # the climb variable is the one local the loop body writes (whatever it is called)
+        c = st.locals[st.ghost['while_var']]
+        if not (isinstance(c, ZV) and c.ty in ('node', 'optnode')):
+            raise OutOfSubset("climb variable is not a node")
         return z3.And(Top0(c.t) == Top0(st.ghost['current0']), c.t != Z.NoneNode, InTree(c.t), Alive(c.t))
 
     def while_stmt(self, eng, st, s):
         for n in ast.walk(ast.Module(body=s.body, type_ignores=[])):
             if isinstance(n, (ast.Attribute, ast.Subscript)) and isinstance(n.ctx, ast.Store):
                 raise OutOfSubset("heap write inside while", s)
+        written = eng.written_names(s.body)
+        if len(written) != 1 or written[0] not in st.locals:
+            raise OutOfSubset("while loop writing other than one existing local", s)
+        st = st.clone()
+        st.ghost['while_var'] = written[0]
         eng.oblige(st, "inv@while/init", self.while_invariant(st), line=s.lineno)
         h = st.clone()
         for nm in eng.written_names(s.body):
